@@ -488,7 +488,7 @@ def ProvDocument_add_bundle(self: "ProvDocument", bundle: "ProvBundle", identifi
     ensures("one-bundle-added", exists(lambda u: not old(qm_has(self._bundles, u)) and qm_has(self._bundles, u)
                                        and forall(lambda w: implies(w != u, qm_has(self._bundles, w) == old(qm_has(self._bundles, w))
                                                                     and implies(qm_has(self._bundles, w), qm_get(self._bundles, w) == old(qm_get(self._bundles, w)))), "str")
-                                       and Attached(self, bundle, qm_get(self._bundles, u), u), "str", hint="valid_id_uri"))
+                                       and Attached(self, bundle, qm_get(self._bundles, u), u), "str"))
 
 
 @spec
@@ -524,8 +524,13 @@ def ProvRecord_copy(self: "ProvRecord") -> "ProvRecord":
     axiom("a member of a sequence sits at some index", seq_member_index_lemma(self.attributes))
     ensures("same-type", same(result._prov_type, self._prov_type))
     ensures("same-identifier", same(result._identifier, self._identifier))
+    ensures("every-stored-pair-is-listed",
+            forall(lambda u, c: implies(old(vs_has(qm_get(self._attributes, u), c)),
+                                        exists_in(old(self.attributes), lambda p: NormalPair(p) and not is_none(p[1]) and PairU(p) == u and same(PairC(p), c))),
+                   "str", "Val"), internal=True)
     ensures("attributes-kept", forall(lambda u, c: implies(old(vs_has(qm_get(self._attributes, u), c)),
-                                                           vs_has(qm_get(result._attributes, u), c)), "str", "Val"))
+                                                           vs_has(qm_get(result._attributes, u), c)), "str", "Val"),
+            using=["every-stored-pair-is-listed"])
     ensures("listed-pairs-are-stored-pairs",
             forall(lambda p: implies(seq_has(old(self.attributes), p), old(vs_has(qm_get(self._attributes, PairU(p)), PairC(p)))), "Tup[Val,Val]"),
             internal=True)
